@@ -47,6 +47,23 @@ def main(argv):
             meta["demo_%s_rc" % which] = rc
             meta["demo_%s_tail" % which] = out[-300:]
         meta["confirmed"] = (res["clean"] == 0 and res["mut"] != 0)
+        if "--no-tests" not in argv:
+            # the pinned suite (the 103 tests of /root/.vp/BASELINE.json) against the patched copy
+            for f in ("tests", "setup.cfg"):
+                srcp = os.path.join("/repo", f)
+                if os.path.isdir(srcp):
+                    shutil.copytree(srcp, os.path.join(scratch, "mut", f), ignore=shutil.ignore_patterns("__pycache__"))
+                else:
+                    shutil.copy(srcp, os.path.join(scratch, "mut", f))
+            ids = open(os.path.join(ROOT, "harness", "stable_tests.txt")).read().split()
+            env = dict(os.environ, PYTHONPATH=os.path.join(scratch, "mut"), PYTHONHASHSEED="0", OMP_NUM_THREADS="1")
+            rc, out = run(["/venv/bin/python", "-m", "pytest", "-q", "-p", "no:cacheprovider", "--timeout=900"] + ids,
+                          env=env, timeout=3000, cwd=os.path.join(scratch, "mut"))
+            last = [l for l in out.splitlines() if l.strip()][-1:]
+            meta["suite_rc"] = rc
+            meta["suite_tail"] = last[0] if last else ""
+            print("pinned suite with the patch: rc=%d %s" % (rc, meta["suite_tail"]))
+            meta["confirmed"] = meta["confirmed"] and rc == 0
         print("demo: clean rc=%d, patched rc=%d -> %s" % (res["clean"], res["mut"], "CONFIRMED" if meta["confirmed"] else "NOT CONFIRMED"))
         caught = False
         for tier in tiers:
@@ -87,7 +104,7 @@ def finish(meta, src, name, store):
                         meta[k] = prev[k]
             except Exception:
                 pass
-        meta["ran"] = "harness/seed_eval.py: demo on clean/patched scratch copies of the current /repo tree; ./check <prop> with VERIF_REPO=<patched copy>"
+        meta["ran"] = "harness/seed_eval.py: demo on clean/patched scratch copies of the current /repo tree; the 103 pinned tests (harness/stable_tests.txt) against the patched copy; ./check <prop> with VERIF_REPO=<patched copy>"
         json.dump(meta, open(os.path.join(dst, "meta.json"), "w"), indent=1)
         print("stored", dst)
     print(json.dumps({k: meta[k] for k in ("property", "confirmed", "caught") if k in meta}))
